@@ -58,6 +58,9 @@ pub enum St {
     New,
     Checking,
     Connected,
+    /// Connected with the genuine peer, but nomination has not happened (controlled: the peer never sends
+    /// USE-CANDIDATE; controlling: the peer leaves the nominating check unanswered)
+    Pending,
 }
 
 #[derive(Clone, Copy, Debug, PartialEq, Eq, Hash, Serialize, Deserialize)]
@@ -151,10 +154,60 @@ pub struct Resp {
     pub fill: Fill,
 }
 
+/// What a forged request keeps of the anchor (an earlier AUTHENTICATED request of the same case).
+#[derive(Clone, Copy, Debug, PartialEq, Eq, Serialize, Deserialize)]
+pub enum Content {
+    /// newly built request with the credentials given by `user` / `mi` (never valid ones)
+    Forged,
+    /// the anchor's attributes up to MESSAGE-INTEGRITY, MESSAGE-INTEGRITY removed
+    MiStripped,
+    /// the anchor's bytes with one HMAC bit flipped
+    MiCorrupted,
+    /// the anchor's bytes with only USE-CANDIDATE (or, if already there, SOFTWARE) inserted before the
+    /// unchanged MESSAGE-INTEGRITY - which no longer covers the content
+    PlusUc,
+    /// the anchor's bytes as they are (a retransmission; with `same_txid == false` only the id is replaced)
+    Exact,
+}
+
+#[derive(Clone, Copy, Debug, PartialEq, Eq, Serialize, Deserialize)]
+pub enum From {
+    /// the very socket the anchor was sent from
+    Anchor,
+    Fresh,
+    Known,
+}
+
+#[derive(Clone, Debug, PartialEq, Eq, Serialize, Deserialize)]
+pub enum Anchor {
+    /// send this authenticated request first
+    Own(Req),
+    /// the last authenticated check of the genuine harness peer (Connected / Pending scenarios)
+    Genuine,
+    /// whatever authenticated request was sent last in this case
+    Last,
+}
+
+/// History-dependent forged request.
+#[derive(Clone, Debug, PartialEq, Eq, Serialize, Deserialize)]
+pub struct Forge {
+    pub anchor: Anchor,
+    pub same_txid: bool,
+    pub from: From,
+    pub content: Content,
+    pub user: User,
+    pub mi: Mi,
+    pub uc: bool,
+    pub ice: bool,
+    pub fp: Fp,
+    pub fill: Fill,
+}
+
 #[derive(Clone, Debug, PartialEq, Eq, Serialize, Deserialize)]
 pub enum Msg {
     Req(Req),
     Resp(Resp),
+    Forge(Forge),
 }
 
 #[derive(Clone, Debug, PartialEq, Eq, Serialize, Deserialize)]
@@ -165,7 +218,7 @@ pub struct Case {
 
 pub const KINDS: [Kind; 4] = [Kind::Udp, Kind::UdpMux, Kind::TcpPassive, Kind::TcpShared];
 pub const ROLES: [Role; 2] = [Role::Controlling, Role::Controlled];
-pub const STATES: [St; 3] = [St::New, St::Checking, St::Connected];
+pub const STATES: [St; 4] = [St::New, St::Checking, St::Connected, St::Pending];
 
 fn scenarios() -> Vec<Scenario> {
     let mut v = Vec::new();
@@ -391,6 +444,77 @@ fn genuine_request(txid: [u8; 12], uc: bool, c: &Creds, agent_role: Role) -> Vec
     build_request(&r, c, agent_role)
 }
 
+/// The oracle's notion of "carries this session's username and a MESSAGE-INTEGRITY computed with the
+/// local password", decided on the bytes of THIS message with the independent reader / HMAC.
+fn authenticated(bytes: &[u8], c: &Creds) -> bool {
+    let Ok(w) = sw::parse_strict(bytes) else { return false };
+    let user_ok = w
+        .attrs
+        .iter()
+        .find(|a| a.typ == A_USERNAME)
+        .and_then(|a| std::str::from_utf8(&a.value).ok())
+        .map(|u| u.starts_with(&format!("{}:", c.l_ufrag)))
+        .unwrap_or(false);
+    let mi_ok = w
+        .attrs
+        .iter()
+        .find(|a| a.typ == A_MI)
+        .map(|a| a.value.len() == 20 && sw::expected_integrity(bytes, a.offset, c.l_pwd.as_bytes())[..] == a.value[..])
+        .unwrap_or(false);
+    user_ok && mi_ok
+}
+
+/// Bytes of a forged request derived from the authenticated `anchor` bytes.
+fn forge_bytes(f: &Forge, anchor: &[u8], c: &Creds, agent_role: Role) -> Vec<u8> {
+    let Ok(w) = sw::parse_strict(anchor) else { return anchor.to_vec() };
+    let mut t = w.txid;
+    if !f.same_txid {
+        t.copy_from_slice(&f.fill.txid[..12]);
+        if t == w.txid {
+            t[0] ^= 0x55;
+        }
+    }
+    let head: Vec<(u16, Vec<u8>)> =
+        w.attrs.iter().take_while(|a| a.typ != A_MI && a.typ != A_FINGERPRINT).map(|a| (a.typ, a.value.clone())).collect();
+    let mut orig = [0u8; 20];
+    if let Some(a) = w.attrs.iter().find(|a| a.typ == A_MI && a.value.len() == 20) {
+        orig.copy_from_slice(&a.value);
+    }
+    match f.content {
+        Content::Forged => {
+            let mi = if f.mi == Mi::Correct || f.mi == Mi::Tampered { Mi::WrongKey } else { f.mi };
+            let r = Req {
+                src: Src::Fresh,
+                user: f.user,
+                mi,
+                uc: f.uc,
+                ice: f.ice,
+                fp: f.fp,
+                fill: Fill { txid: t.to_vec(), ..f.fill.clone() },
+            };
+            build_request(&r, c, agent_role)
+        }
+        Content::Exact if f.same_txid => anchor.to_vec(),
+        Content::Exact => build_stun(w.msg_type, &t, &head, MiSpec::Raw(orig), f.fp),
+        Content::MiStripped => build_stun(w.msg_type, &t, &head, MiSpec::None, f.fp),
+        Content::MiCorrupted => {
+            let mut m = orig;
+            let bit = (f.fill.junk % 160) as usize;
+            m[bit / 8] ^= 1 << (bit % 8);
+            build_stun(w.msg_type, &t, &head, MiSpec::Raw(m), f.fp)
+        }
+        Content::PlusUc => {
+            let mut h = head.clone();
+            if h.iter().any(|a| a.0 == A_USE_CANDIDATE) {
+                h.push((A_SOFTWARE, b"x".to_vec()));
+            } else {
+                h.push((A_USE_CANDIDATE, Vec::new()));
+            }
+            build_stun(w.msg_type, &t, &h, MiSpec::Raw(orig), f.fp)
+        }
+    }
+}
+
 // ------------------------------------------------------------------ observation
 
 #[derive(Clone, Debug, PartialEq, Eq)]
@@ -516,7 +640,7 @@ impl Drop for Peer {
     }
 }
 
-async fn peer(creds: Creds, answer: bool) -> Result<Peer, String> {
+async fn peer(creds: Creds, answer: bool, answer_uc: bool) -> Result<Peer, String> {
     let sock = Arc::new(UdpSocket::bind("127.0.0.1:0").await.map_err(|e| format!("bind: {e}"))?);
     let addr = sock.local_addr().map_err(|e| e.to_string())?;
     let seen = Arc::new(Mutex::new(Seen::default()));
@@ -532,7 +656,8 @@ async fn peer(creds: Creds, answer: bool) -> Result<Peer, String> {
             }
             match w.class {
                 0 => {
-                    let do_answer = ans2.load(Ordering::SeqCst);
+                    let nominating = w.attrs.iter().any(|a| a.typ == A_USE_CANDIDATE);
+                    let do_answer = ans2.load(Ordering::SeqCst) && (answer_uc || !nominating);
                     {
                         let mut g = seen2.lock();
                         g.agent_src = Some(from);
@@ -575,6 +700,38 @@ struct Live {
     known_tcp: Option<TcpStream>,
     keep: Vec<Keep>,
     fast_timeout: bool,
+    pending: bool,
+    /// last authenticated check of the genuine harness peer
+    genuine: Option<AnchorRef>,
+    /// last authenticated request of this case, whoever sent it
+    last_auth: Option<AnchorRef>,
+}
+
+#[derive(Clone)]
+struct AnchorRef {
+    bytes: Vec<u8>,
+    /// None = the known socket, Some(i) = `keep[i]`
+    src: Option<usize>,
+}
+
+#[derive(Clone, Copy, Debug)]
+enum Via {
+    Known,
+    Fresh,
+    Keep(usize),
+}
+
+impl From {
+    fn via(self, anchor: &AnchorRef) -> Via {
+        match self {
+            From::Fresh => Via::Fresh,
+            From::Known => Via::Known,
+            From::Anchor => match anchor.src {
+                None => Via::Known,
+                Some(i) => Via::Keep(i),
+            },
+        }
+    }
 }
 
 impl Drop for Live {
@@ -584,23 +741,28 @@ impl Drop for Live {
         // nomination_timeout. Keep every harness socket it may still be talking to bound until
         // then, otherwise the freed port can be handed to ANOTHER case's agent, which would see
         // the stale checks as requests from a stranger (cross-talk between cases).
+        let grave = Duration::from_secs(if self.pending { 31 } else { 11 });
         let keep = std::mem::take(&mut self.keep);
         let k = self.known.sock.clone();
         let kt = self.known_tcp.take();
         let ks = self.known_tcp_sock.take();
         if let Ok(h) = tokio::runtime::Handle::try_current() {
             h.spawn(async move {
-                tokio::time::sleep(Duration::from_secs(11)).await;
+                tokio::time::sleep(grave).await;
                 drop((keep, k, kt, ks));
             });
         }
     }
 }
 
-fn config_for(kind: Kind, env: &Env, fast_timeout: bool) -> RtcConfiguration {
+fn config_for(kind: Kind, env: &Env, fast_timeout: bool, pending: bool) -> RtcConfiguration {
     let mut cfg = RtcConfiguration::default();
     cfg.bind_ip = Some("127.0.0.1".to_string());
     cfg.disable_ipv6 = true;
+    if pending {
+        // must not run into the nomination timeout while it is observed
+        cfg.nomination_timeout = Duration::from_secs(30);
+    }
     if fast_timeout {
         cfg.stun_timeout = Duration::from_millis(300);
     }
@@ -669,7 +831,7 @@ async fn build_live(case: &Case, env: &Env) -> Result<Live, String> {
     let sc = case.sc;
     let wants_completed = case.msgs.iter().any(|m| matches!(m, Msg::Resp(r) if r.tx == RespTx::Completed));
     let fast_timeout = sc.state == St::Checking && wants_completed;
-    let t = gathered(config_for(sc.kind, env, fast_timeout), sc.role).await?;
+    let t = gathered(config_for(sc.kind, env, fast_timeout, sc.state == St::Pending), sc.role).await?;
     let lp = t.local_parameters();
     let creds = Creds {
         l_ufrag: lp.username_fragment.clone(),
@@ -687,7 +849,8 @@ async fn build_live(case: &Case, env: &Env) -> Result<Live, String> {
     if is_tcp(sc.kind) && tcp_target.is_none() {
         return Err(format!("no passive TCP candidate gathered ({:?})", sc.kind));
     }
-    let known = peer(creds.clone(), sc.state == St::Connected).await?;
+    let with_peer = matches!(sc.state, St::Connected | St::Pending);
+    let known = peer(creds.clone(), with_peer, sc.state != St::Pending).await?;
     let mut live = Live {
         t,
         creds,
@@ -700,10 +863,14 @@ async fn build_live(case: &Case, env: &Env) -> Result<Live, String> {
         known_tcp: None,
         keep: Vec::new(),
         fast_timeout,
+        pending: sc.state == St::Pending,
+        genuine: None,
+        last_auth: None,
     };
     let uses_known = case.msgs.iter().any(|m| match m {
         Msg::Req(r) => r.src == Src::Known,
         Msg::Resp(r) => r.src == Src::Known,
+        Msg::Forge(f) => f.from != From::Fresh || matches!(&f.anchor, Anchor::Own(r) if r.src == Src::Known),
     });
     let remote = IceParameters::new(R_UFRAG, R_PWD);
     if is_tcp(sc.kind) && uses_known {
@@ -731,7 +898,7 @@ async fn build_live(case: &Case, env: &Env) -> Result<Live, String> {
                 tokio::time::sleep(Duration::from_millis(380)).await;
             }
         }
-        St::Connected => {
+        St::Connected | St::Pending => {
             live.t.add_remote_candidate(IceCandidate::host(live.known.addr, 1));
             if sc.kind == Kind::UdpMux {
                 // a genuine peer's first authenticated check also creates the mux routing entry
@@ -744,19 +911,41 @@ async fn build_live(case: &Case, env: &Env) -> Result<Live, String> {
             if !wait_until(Duration::from_secs(6), || t.state() == IceTransportState::Connected).await {
                 return Err(format!("agent did not reach Connected with the genuine peer (state {:?})", t.state()));
             }
-            if sc.role == Role::Controlled {
-                let b = genuine_request(*b"c06-nominate", true, &live.creds, sc.role);
-                let _ = live.known.sock.send_to(&b, live.udp_target).await;
+            if sc.state == St::Connected {
+                if sc.role == Role::Controlled {
+                    let b = genuine_request(*b"c06-nominate", true, &live.creds, sc.role);
+                    let _ = live.known.sock.send_to(&b, live.udp_target).await;
+                }
+                let ok = wait_until(Duration::from_secs(6), || {
+                    t.state() == IceTransportState::Connected
+                        && t.get_selected_pair().is_some()
+                        && *t.subscribe_nomination_complete().borrow() == Some(true)
+                })
+                .await;
+                if !ok {
+                    return Err(format!("nomination with the genuine peer did not complete: {:?}", snap(&t)));
+                }
+            } else {
+                // controlled: own check answered -> pair selected, waiting for the peer's USE-CANDIDATE;
+                // controlling: Connected, nominating check outstanding (the peer does not answer it)
+                let want_pair = sc.role == Role::Controlled;
+                let seen = live.known.seen.clone();
+                let ok = wait_until(Duration::from_secs(6), || {
+                    t.get_selected_pair().is_some() == want_pair && (want_pair || seen.lock().requests.len() >= 2)
+                })
+                .await;
+                if !ok || t.subscribe_nomination_complete().borrow().is_some() {
+                    return Err(format!("could not hold the agent before nomination: {:?}", snap(&t)));
+                }
             }
-            let ok = wait_until(Duration::from_secs(6), || {
-                t.state() == IceTransportState::Connected
-                    && t.get_selected_pair().is_some()
-                    && *t.subscribe_nomination_complete().borrow() == Some(true)
-            })
-            .await;
-            if !ok {
-                return Err(format!("nomination with the genuine peer did not complete: {:?}", snap(&t)));
-            }
+            // every genuine peer also runs its own (authenticated, non-nominating) checks: the anchor for
+            // forged requests that re-use something of the genuine peer
+            let b = genuine_request(*b"c06-genuine1", false, &live.creds, sc.role);
+            let _ = live.known.sock.send_to(&b, live.udp_target).await;
+            let seen = live.known.seen.clone();
+            wait_until(Duration::from_millis(400), || seen.lock().responses.contains(b"c06-genuine1")).await;
+            live.genuine = Some(AnchorRef { bytes: b.clone(), src: None });
+            live.last_auth = live.genuine.clone();
         }
     }
     Ok(live)
@@ -768,6 +957,60 @@ struct Sent {
     answered: bool,
     authorised: bool,
     note: Option<&'static str>,
+}
+
+/// One wire message (a `Msg::Forge` with its own anchor expands to two steps).
+#[derive(Clone, Debug)]
+enum Step {
+    Req(Req),
+    Resp(Resp),
+    Forge(Forge),
+}
+
+fn default_anchor(fill: &Fill) -> Req {
+    let mut f = fill.clone();
+    f.txid = f.txid.iter().map(|b| b.wrapping_add(0x3b)).collect();
+    Req { src: Src::Fresh, user: User::Right, mi: Mi::Correct, uc: false, ice: true, fp: Fp::Valid, fill: f }
+}
+
+fn spec_authenticated(r: &Req) -> bool {
+    r.mi == Mi::Correct && matches!(r.user, User::Right | User::HalfRight)
+}
+
+/// Flatten a case into wire steps; a forged request always has an authenticated anchor before it.
+fn steps_of(case: &Case) -> Vec<Step> {
+    let mut have = matches!(case.sc.state, St::Connected | St::Pending);
+    let mut out = Vec::new();
+    for m in &case.msgs {
+        match m {
+            Msg::Req(r) => {
+                have |= spec_authenticated(r);
+                out.push(Step::Req(r.clone()));
+            }
+            Msg::Resp(r) => out.push(Step::Resp(r.clone())),
+            Msg::Forge(f) => {
+                match &f.anchor {
+                    Anchor::Own(r) => {
+                        let mut r = r.clone();
+                        if !spec_authenticated(&r) {
+                            r.user = User::Right;
+                            r.mi = Mi::Correct;
+                        }
+                        out.push(Step::Req(r));
+                        have = true;
+                    }
+                    Anchor::Genuine | Anchor::Last => {
+                        if !have {
+                            out.push(Step::Req(default_anchor(&f.fill)));
+                            have = true;
+                        }
+                    }
+                }
+                out.push(Step::Forge(f.clone()));
+            }
+        }
+    }
+    out
 }
 
 async fn read_frame(s: &mut TcpStream, limit: Duration) -> Option<Vec<u8>> {
@@ -785,12 +1028,21 @@ async fn read_frame(s: &mut TcpStream, limit: Duration) -> Option<Vec<u8>> {
 }
 
 impl Live {
-    async fn tcp_send(&mut self, src: Src, bytes: &[u8], expect_reply: bool) -> (bool, bool) {
-        let Some(target) = self.tcp_target else { return (false, false) };
+    async fn tcp_send(&mut self, via: Via, bytes: &[u8], expect_reply: bool) -> (bool, bool, Option<usize>) {
+        let Some(target) = self.tcp_target else { return (false, false, None) };
         let mut framed = (bytes.len() as u16).to_be_bytes().to_vec();
         framed.extend_from_slice(bytes);
-        match src {
-            Src::Known => {
+        if let Via::Keep(i) = via {
+            if let Some(Keep::Tcp(st)) = self.keep.get_mut(i) {
+                if st.write_all(&framed).await.is_err() {
+                    return (false, false, Some(i));
+                }
+                let answered = expect_reply && read_frame(st, Duration::from_millis(400)).await.is_some();
+                return (true, answered, Some(i));
+            }
+        }
+        match via {
+            Via::Known => {
                 if self.known_tcp.is_none() {
                     if let Some(s) = self.known_tcp_sock.take() {
                         match tokio::time::timeout(Duration::from_secs(2), s.connect(target)).await {
@@ -798,88 +1050,130 @@ impl Live {
                                 let _ = st.set_nodelay(true);
                                 self.known_tcp = Some(st);
                             }
-                            _ => return (false, false),
+                            _ => return (false, false, None),
                         }
                     }
                 }
-                let Some(st) = self.known_tcp.as_mut() else { return (false, false) };
+                let Some(st) = self.known_tcp.as_mut() else { return (false, false, None) };
                 if st.write_all(&framed).await.is_err() {
-                    return (false, false);
+                    return (false, false, None);
                 }
                 let answered = expect_reply && read_frame(st, Duration::from_millis(400)).await.is_some();
-                (true, answered)
+                (true, answered, None)
             }
-            Src::Fresh => {
+            Via::Fresh | Via::Keep(_) => {
                 let Ok(Ok(mut st)) = tokio::time::timeout(Duration::from_secs(2), TcpStream::connect(target)).await else {
-                    return (false, false);
+                    return (false, false, None);
                 };
                 let _ = st.set_nodelay(true);
                 if st.write_all(&framed).await.is_err() {
-                    return (false, false);
+                    return (false, false, None);
                 }
                 let answered = expect_reply && read_frame(&mut st, Duration::from_millis(400)).await.is_some();
                 self.keep.push(Keep::Tcp(st));
-                (true, answered)
+                (true, answered, Some(self.keep.len() - 1))
             }
         }
     }
 
-    async fn udp_send(&mut self, src: Src, bytes: &[u8], txid: [u8; 12], expect_reply: bool) -> (bool, bool) {
-        match src {
-            Src::Known => {
+    async fn udp_send(&mut self, via: Via, bytes: &[u8], txid: [u8; 12], expect_reply: bool) -> (bool, bool, Option<usize>) {
+        async fn reply(s: &UdpSocket, txid: [u8; 12]) -> bool {
+            let mut buf = [0u8; 2048];
+            let t0 = Instant::now();
+            while t0.elapsed() < Duration::from_millis(400) {
+                let left = Duration::from_millis(400).saturating_sub(t0.elapsed());
+                match tokio::time::timeout(left, s.recv_from(&mut buf)).await {
+                    Ok(Ok((n, _))) => {
+                        if sw::parse_strict(&buf[..n]).map(|w| w.txid == txid && w.class >= 2).unwrap_or(false) {
+                            return true;
+                        }
+                    }
+                    _ => return false,
+                }
+            }
+            false
+        }
+        if let Via::Keep(i) = via {
+            if let Some(Keep::Udp(s)) = self.keep.get(i) {
+                if s.send_to(bytes, self.udp_target).await.is_err() {
+                    return (false, false, Some(i));
+                }
+                let answered = expect_reply && reply(s, txid).await;
+                return (true, answered, Some(i));
+            }
+        }
+        match via {
+            Via::Known => {
                 if self.known.sock.send_to(bytes, self.udp_target).await.is_err() {
-                    return (false, false);
+                    return (false, false, None);
                 }
                 let seen = self.known.seen.clone();
-                let answered =
-                    expect_reply && wait_until(Duration::from_millis(400), || seen.lock().responses.contains(&txid)).await;
-                (true, answered)
+                // (a re-used transaction id may already have been answered: then only the pause counts)
+                let already = seen.lock().responses.contains(&txid);
+                let answered = expect_reply
+                    && !already
+                    && wait_until(Duration::from_millis(400), || seen.lock().responses.contains(&txid)).await;
+                if already {
+                    tokio::time::sleep(Duration::from_millis(60)).await;
+                }
+                (true, answered, None)
             }
-            Src::Fresh => {
-                let Ok(s) = UdpSocket::bind("127.0.0.1:0").await else { return (false, false) };
+            Via::Fresh | Via::Keep(_) => {
+                let Ok(s) = UdpSocket::bind("127.0.0.1:0").await else { return (false, false, None) };
                 if s.send_to(bytes, self.udp_target).await.is_err() {
-                    return (false, false);
+                    return (false, false, None);
                 }
-                let mut answered = false;
-                if expect_reply {
-                    let mut buf = [0u8; 2048];
-                    if let Ok(Ok((n, _))) = tokio::time::timeout(Duration::from_millis(400), s.recv_from(&mut buf)).await {
-                        answered = sw::parse_strict(&buf[..n]).map(|w| w.txid == txid && w.class >= 2).unwrap_or(false);
-                    }
-                }
+                let answered = expect_reply && reply(&s, txid).await;
                 self.keep.push(Keep::Udp(s));
-                (true, answered)
+                (true, answered, Some(self.keep.len() - 1))
             }
         }
     }
 
-    async fn send(&mut self, m: &Msg) -> Sent {
+    async fn send_request(&mut self, via: Via, bytes: &[u8]) -> (bool, bool, Option<usize>) {
+        let mut txid = [0u8; 12];
+        txid.copy_from_slice(&bytes[8..20]);
+        if is_tcp(self.kind) { self.tcp_send(via, bytes, true).await } else { self.udp_send(via, bytes, txid, true).await }
+    }
+
+    async fn send(&mut self, m: &Step) -> Sent {
         match m {
-            Msg::Req(r) => {
+            Step::Req(r) => {
                 let bytes = build_request(r, &self.creds, self.role);
-                let mut txid = [0u8; 12];
-                txid.copy_from_slice(&bytes[8..20]);
-                let (delivered, answered) = if is_tcp(self.kind) {
-                    self.tcp_send(r.src, &bytes, true).await
-                } else {
-                    self.udp_send(r.src, &bytes, txid, true).await
-                };
-                Sent {
-                    delivered,
-                    answered,
-                    authorised: r.mi == Mi::Correct && matches!(r.user, User::Right | User::HalfRight),
-                    note: None,
+                let via = if r.src == Src::Known { Via::Known } else { Via::Fresh };
+                let (delivered, answered, idx) = self.send_request(via, &bytes).await;
+                let authorised = authenticated(&bytes, &self.creds);
+                if authorised && delivered {
+                    self.last_auth = Some(AnchorRef { bytes, src: idx });
                 }
+                Sent { delivered, answered, authorised, note: None }
             }
-            Msg::Resp(r) => {
+            Step::Forge(f) => {
+                let anchor = match &f.anchor {
+                    Anchor::Genuine => self.genuine.clone().or_else(|| self.last_auth.clone()),
+                    _ => self.last_auth.clone(),
+                };
+                let Some(anchor) = anchor else {
+                    return Sent { delivered: false, answered: false, authorised: false, note: Some("forge:anchor-unavailable") };
+                };
+                let bytes = forge_bytes(f, &anchor.bytes, &self.creds, self.role);
+                let (delivered, answered, idx) = self.send_request(f.from.via(&anchor), &bytes).await;
+                let authorised = authenticated(&bytes, &self.creds);
+                if authorised && delivered {
+                    self.last_auth = Some(AnchorRef { bytes, src: idx });
+                }
+                Sent { delivered, answered, authorised, note: None }
+            }
+            Step::Resp(r) => {
                 let (txid, authorised, note) = self.pick_txid(r);
                 let mapped = self.known.seen.lock().agent_src.unwrap_or(self.udp_target);
                 let bytes = build_response(&txid, r.error, mapped, r.mi, r.fp, &self.creds);
+                let via = if r.src == Src::Known { Via::Known } else { Via::Fresh };
                 // TCP kinds also own a UDP socket: half of the responses go there
-                let (delivered, _) = if is_tcp(self.kind) && r.fill.junk & 0x10 != 0 {
-                    self.tcp_send(r.src, &bytes, false).await
+                let (delivered, _, _) = if is_tcp(self.kind) && r.fill.junk & 0x10 != 0 {
+                    self.tcp_send(via, &bytes, false).await
                 } else {
-                    self.udp_send(r.src, &bytes, txid, false).await
+                    self.udp_send(via, &bytes, txid, false).await
                 };
                 Sent { delivered, answered: false, authorised, note }
             }
@@ -929,13 +1223,22 @@ impl Live {
 
 const SETTLE: Duration = Duration::from_millis(150);
 
-fn describe(m: &Msg) -> String {
+fn describe(m: &Step) -> String {
     match m {
-        Msg::Req(r) => format!(
+        Step::Req(r) => format!(
             "request src={:?} user={:?} mi={:?} use-candidate={} ice-attrs={} fp={:?}",
             r.src, r.user, r.mi, r.uc, r.ice, r.fp
         ),
-        Msg::Resp(r) => format!("response src={:?} error={:?} tx={:?} mi={} fp={:?}", r.src, r.error, r.tx, r.mi, r.fp),
+        Step::Resp(r) => format!("response src={:?} error={:?} tx={:?} mi={} fp={:?}", r.src, r.error, r.tx, r.mi, r.fp),
+        Step::Forge(f) => format!(
+            "forged request re-using an authenticated one: anchor={} same-txid={} from={:?} content={:?} user={:?} mi={:?} use-candidate={} fp={:?}",
+            match &f.anchor {
+                Anchor::Own(r) => format!("own(src={:?},uc={})", r.src, r.uc),
+                Anchor::Genuine => "genuine-peer".to_string(),
+                Anchor::Last => "last-authenticated".to_string(),
+            },
+            f.same_txid, f.from, f.content, f.user, f.mi, f.uc, f.fp
+        ),
     }
 }
 
@@ -963,14 +1266,15 @@ async fn run_case(case: Case, env: Arc<Env>, known: Arc<HashSet<String>>) -> (Ca
             Err(Fail::timing("harness-baseline-unstable", format!("{:?}: baseline moved on its own: {:?} -> {:?}", sc, cur, again))),
         );
     }
-    let want = format!("{:?}", sc.state);
+    let want = if sc.state == St::Pending { "Connected".to_string() } else { format!("{:?}", sc.state) };
     if cur.state != want {
         return (rec, Err(Fail::timing("harness-setup", format!("{:?}: agent is in state {} after setup", sc, cur.state))));
     }
     let mut failures: Vec<Fail> = Vec::new();
     let mut prev_authorised = false;
     let mut any_unauth = false;
-    for (i, m) in case.msgs.iter().enumerate() {
+    let steps = steps_of(&case);
+    for (i, m) in steps.iter().enumerate() {
         let t0 = Instant::now();
         let sent = live.send(m).await;
         let min_end = t0 + SETTLE;
@@ -980,7 +1284,20 @@ async fn run_case(case: Case, env: Arc<Env>, known: Arc<HashSet<String>>) -> (Ca
         let eff = effects(&cur, &after);
         let changed = eff.iter().any(|g| !g.is_empty());
         match m {
-            Msg::Req(r) => {
+            Step::Forge(f) => {
+                rec.label(format!("forge:content={:?}", f.content));
+                rec.label(format!("forge:from={:?}", f.from));
+                rec.label(if f.same_txid { "forge:txid=re-used" } else { "forge:txid=new" });
+                rec.label(match &f.anchor {
+                    Anchor::Own(_) => "forge:anchor=own",
+                    Anchor::Genuine => "forge:anchor=genuine-peer",
+                    Anchor::Last => "forge:anchor=last",
+                });
+                if sent.answered {
+                    rec.label("req:answered-by-agent");
+                }
+            }
+            Step::Req(r) => {
                 rec.label(format!("req:user={:?}", r.user));
                 rec.label(format!("req:mi={:?}", r.mi));
                 rec.label(format!("req:src={:?}", r.src));
@@ -989,7 +1306,7 @@ async fn run_case(case: Case, env: Arc<Env>, known: Arc<HashSet<String>>) -> (Ca
                     rec.label("req:answered-by-agent");
                 }
             }
-            Msg::Resp(r) => {
+            Step::Resp(r) => {
                 rec.label(format!("resp:tx={:?}", r.tx));
             }
         }
@@ -1007,7 +1324,7 @@ async fn run_case(case: Case, env: Arc<Env>, known: Arc<HashSet<String>>) -> (Ca
             }
         } else {
             any_unauth = true;
-            let prefix = if matches!(m, Msg::Req(_)) { P_REQ } else { P_RESP };
+            let prefix = if matches!(m, Step::Resp(_)) { P_RESP } else { P_REQ };
             if changed {
                 rec.label(format!("effect={}{}", prefix, all.join("+")));
             } else {
@@ -1023,7 +1340,7 @@ async fn run_case(case: Case, env: Arc<Env>, known: Arc<HashSet<String>>) -> (Ca
                 failures.push(if unknown && prev_authorised { Fail::timing(sig, msg) } else { Fail::new(sig, msg) });
             }
         }
-        let stop = sent.authorised && matches!(m, Msg::Resp(_));
+        let stop = sent.authorised && matches!(m, Step::Resp(_));
         prev_authorised = sent.authorised;
         cur = after;
         if stop {
@@ -1065,7 +1382,7 @@ fn fill_strategy() -> impl Strategy<Value = Fill> {
 }
 
 fn scenario_strategy() -> impl Strategy<Value = Scenario> {
-    (0..4usize, 0..2usize, 0..3usize).prop_map(|(k, r, s)| Scenario { kind: KINDS[k], role: ROLES[r], state: STATES[s] })
+    (0..4usize, 0..2usize, 0..4usize).prop_map(|(k, r, s)| Scenario { kind: KINDS[k], role: ROLES[r], state: STATES[s] })
 }
 
 fn src_strategy() -> impl Strategy<Value = Src> {
@@ -1107,10 +1424,64 @@ fn resp_strategy() -> impl Strategy<Value = Resp> {
         .prop_map(|(src, error, tx, mi, fp, fill)| Resp { src, error, tx, mi, fp, fill })
 }
 
+/// An authenticated request to anchor a forgery on (mostly a plain check: a nominating one would
+/// legitimately connect the agent and hide what the forgery does).
+fn auth_req_strategy() -> impl Strategy<Value = Req> {
+    (
+        src_strategy(),
+        prop_oneof![4 => Just(User::Right), 1 => Just(User::HalfRight)],
+        prop::bool::weighted(0.2),
+        prop::bool::weighted(0.8),
+        prop_oneof![4 => Just(Fp::Valid), 1 => Just(Fp::Absent)],
+        fill_strategy(),
+    )
+        .prop_map(|(src, user, uc, ice, fp, fill)| Req { src, user, mi: Mi::Correct, uc, ice, fp, fill })
+}
+
+fn forge_strategy() -> impl Strategy<Value = Forge> {
+    (
+        prop_oneof![5 => auth_req_strategy().prop_map(Anchor::Own), 3 => Just(Anchor::Genuine), 2 => Just(Anchor::Last)],
+        prop::bool::weighted(0.7),
+        prop_oneof![3 => Just(From::Fresh), 3 => Just(From::Anchor), 2 => Just(From::Known)],
+        prop_oneof![
+            4 => Just(Content::Forged), 2 => Just(Content::MiStripped), 2 => Just(Content::MiCorrupted),
+            2 => Just(Content::PlusUc), 1 => Just(Content::Exact)
+        ],
+        prop_oneof![
+            2 => Just(User::Absent), 2 => Just(User::Wrong), 1 => Just(User::Swapped),
+            1 => Just(User::HalfRight), 3 => Just(User::Right)
+        ],
+        prop_oneof![3 => Just(Mi::Absent), 1 => Just(Mi::Random), 2 => Just(Mi::WrongKey), 2 => Just(Mi::RemotePwd)],
+        prop::bool::weighted(0.8),
+        prop::bool::weighted(0.7),
+        fp_strategy(),
+        fill_strategy(),
+    )
+        .prop_map(|(anchor, same_txid, from, content, user, mi, uc, ice, fp, fill)| Forge {
+            anchor,
+            same_txid,
+            from,
+            content,
+            user,
+            mi,
+            uc,
+            ice,
+            fp,
+            fill,
+        })
+}
+
 fn seq_strategy() -> impl Strategy<Value = Case> {
     (
         scenario_strategy(),
-        prop::collection::vec(prop_oneof![4 => req_strategy().prop_map(Msg::Req), 1 => resp_strategy().prop_map(Msg::Resp)], 1..=10),
+        prop::collection::vec(
+            prop_oneof![
+                4 => req_strategy().prop_map(Msg::Req),
+                1 => resp_strategy().prop_map(Msg::Resp),
+                3 => forge_strategy().prop_map(Msg::Forge)
+            ],
+            1..=10,
+        ),
     )
         .prop_map(|(sc, msgs)| Case { sc, msgs })
 }
@@ -1145,6 +1516,66 @@ fn cross_requests(fills: &[Fill], round: usize) -> Vec<Case> {
                         });
                         j += 1;
                     }
+                }
+            }
+        }
+    }
+    out
+}
+
+/// scenario x anchor {own authenticated check from a fresh / the known address, the genuine peer's check}
+/// x forged content x what is re-used {transaction id, source address, both, id from the known address};
+/// the forged request always asks for nomination.
+fn history_requests(fills: &[Fill], round: usize) -> Vec<Case> {
+    let mut out = Vec::new();
+    for (si, sc) in scenarios().into_iter().enumerate() {
+        let mut anchors: Vec<(Option<Src>, Vec<(bool, From)>)> = vec![
+            (Some(Src::Fresh), vec![(true, From::Fresh), (false, From::Anchor), (true, From::Anchor), (true, From::Known)]),
+            (Some(Src::Known), vec![(true, From::Fresh), (false, From::Anchor), (true, From::Anchor)]),
+        ];
+        if matches!(sc.state, St::Connected | St::Pending) {
+            anchors.push((None, vec![(true, From::Fresh), (false, From::Anchor), (true, From::Anchor)]));
+        }
+        let mut j = 0usize;
+        for (a_src, reuses) in anchors {
+            for (content, user, mi) in [
+                (Content::Forged, User::Absent, Mi::Absent),
+                (Content::Forged, User::Right, Mi::WrongKey),
+                (Content::MiStripped, User::Right, Mi::Absent),
+                (Content::MiCorrupted, User::Right, Mi::Random),
+                (Content::PlusUc, User::Right, Mi::Random),
+            ] {
+                for (same_txid, from) in reuses.iter().copied() {
+                    let p = j + si + round;
+                    let fill = fills[out.len() % fills.len()].clone();
+                    let anchor = match a_src {
+                        Some(src) => Anchor::Own(Req {
+                            src,
+                            user: User::Right,
+                            mi: Mi::Correct,
+                            uc: false,
+                            ice: true,
+                            fp: Fp::Valid,
+                            fill: fills[(out.len() + 7) % fills.len()].clone(),
+                        }),
+                        None => Anchor::Genuine,
+                    };
+                    out.push(Case {
+                        sc,
+                        msgs: vec![Msg::Forge(Forge {
+                            anchor,
+                            same_txid,
+                            from,
+                            content,
+                            user,
+                            mi,
+                            uc: true,
+                            ice: p & 1 == 0,
+                            fp: if (p >> 1) & 1 == 0 { Fp::Valid } else { Fp::Invalid },
+                            fill,
+                        })],
+                    });
+                    j += 1;
                 }
             }
         }
@@ -1246,6 +1677,55 @@ fn selfcheck(c: &SelfCase, rec: &CaseRec) -> Check {
         "rustrtc decoded {:?}",
         d
     );
+    crate::ensure!(
+        authenticated(&bytes, &creds) == spec_authenticated(&c.req),
+        "selfcheck-oracle",
+        "byte-level authentication verdict {} disagrees with the generated credentials {:?}/{:?}",
+        authenticated(&bytes, &creds),
+        c.req.user,
+        c.req.mi
+    );
+    // a forgery derived from an authenticated request is never authenticated, except the exact retransmission
+    if spec_authenticated(&c.req) {
+        for content in [Content::MiStripped, Content::MiCorrupted, Content::PlusUc, Content::Exact] {
+            for same_txid in [true, false] {
+                let f = Forge {
+                    anchor: Anchor::Last,
+                    same_txid,
+                    from: From::Fresh,
+                    content,
+                    user: User::Right,
+                    mi: Mi::Absent,
+                    uc: true,
+                    ice: true,
+                    fp: c.req.fp,
+                    fill: Fill { junk: c.req.fill.junk.rotate_left(7), ..c.req.fill.clone() },
+                };
+                let fb = forge_bytes(&f, &bytes, &creds, role);
+                let want = content == Content::Exact && same_txid;
+                let mut m2 = Message::new();
+                let ref_ok = m2.unmarshal_binary(&fb).is_ok()
+                    && MessageIntegrity::new_short_term_integrity(creds.l_pwd.clone()).check(&mut m2).is_ok();
+                crate::ensure!(
+                    authenticated(&fb, &creds) == want && ref_ok == want,
+                    "selfcheck-forgery",
+                    "forgery {:?} same_txid={} authenticated: own {} reference {} wanted {}",
+                    content,
+                    same_txid,
+                    authenticated(&fb, &creds),
+                    ref_ok,
+                    want
+                );
+                crate::ensure!(
+                    rustrtc::transports::ice::stun::StunMessage::decode(&fb).is_ok(),
+                    "selfcheck-rustrtc-rejects",
+                    "rustrtc cannot decode forgery {:?}",
+                    content
+                );
+                rec.label(format!("selfcheck:forgery={:?}", content));
+            }
+        }
+    }
     // own strict reader agrees on MESSAGE-INTEGRITY placement
     let w = sw::parse_strict(&bytes).map_err(|e| Fail::new("selfcheck-strict", e))?;
     if let Some(a) = w.attrs.iter().find(|a| a.typ == A_MI) {
@@ -1360,8 +1840,8 @@ async fn free_tcp_port() -> u16 {
 async fn anchors() -> Result<(Env, Vec<IceTransport>), String> {
     for _ in 0..8 {
         let env = Env { mux_port: free_udp_port().await, tcp_shared_port: free_tcp_port().await };
-        let a = gathered(config_for(Kind::UdpMux, &env, false), Role::Controlled).await?;
-        let b = gathered(config_for(Kind::TcpShared, &env, false), Role::Controlled).await?;
+        let a = gathered(config_for(Kind::UdpMux, &env, false, false), Role::Controlled).await?;
+        let b = gathered(config_for(Kind::TcpShared, &env, false, false), Role::Controlled).await?;
         let ok_a = a.local_candidates().iter().any(|c| c.transport == "udp" && c.address.port() == env.mux_port);
         let ok_b = b.local_candidates().iter().any(|c| c.transport == "tcp" && c.address.port() == env.tcp_shared_port);
         if ok_a && ok_b {
@@ -1375,9 +1855,9 @@ async fn anchors() -> Result<(Env, Vec<IceTransport>), String> {
 
 pub fn run(ctx: &mut Ctx) {
     ctx.level = "exploration";
-    ctx.rule = "live IceTransport (WebRTC mode, loopback) per case in scenario = socket kind {per-agent UDP, shared UDP mux port, per-agent passive TCP listener, shared passive TCP listener} x role {controlling, controlled} x state {New (gathered; a trickled remote candidate only when a message uses the known source), Checking (remote parameters + one silent remote candidate with an outstanding check), Connected (genuine harness peer: authenticated checks, nomination complete)}; cross-requests: scenario x source {known remote candidate address, fresh socket} x USERNAME {absent, wrong, local-half-only, right} x MESSAGE-INTEGRITY {absent, random, wrong key, remote password, correct} x USE-CANDIDATE, PRIORITY/ICE-CONTROL* presence and FINGERPRINT validity rotating over cells, one message per fresh agent; cross-responses: scenario x source x {success, error 401} x transaction id {random, replay of a completed (answered or timed-out) transaction} x MI, plus responses to outstanding transactions as positive control; sequences: proptest sequences of 1-10 requests/responses with random field contents (also swapped username, tampered HMAC, absent FINGERPRINT, error codes). Non-trivial = at least one request lacking valid credentials or one response without outstanding transaction was delivered to the live agent; distinct by case digest (variant x scenario x field contents).".into();
+    ctx.rule = "live IceTransport (WebRTC mode, loopback) per case in scenario = socket kind {per-agent UDP, shared UDP mux port, per-agent passive TCP listener, shared passive TCP listener} x role {controlling, controlled} x state {New (gathered; a trickled remote candidate only when a message uses the known source), Checking (remote parameters + one silent remote candidate with an outstanding check), Connected (genuine harness peer: authenticated checks, nomination complete), Pending (same peer, connected but nomination withheld)}; cross-requests: scenario x source {known remote candidate address, fresh socket} x USERNAME {absent, wrong, local-half-only, right} x MESSAGE-INTEGRITY {absent, random, wrong key, remote password, correct} x USE-CANDIDATE, PRIORITY/ICE-CONTROL* presence and FINGERPRINT validity rotating over cells, one message per fresh agent; cross-responses: scenario x source x {success, error 401} x transaction id {random, replay of a completed (answered or timed-out) transaction} x MI, plus responses to outstanding transactions as positive control; history-requests: scenario x anchor {own authenticated plain check from a fresh / from the known address, the genuine peer's last check} x forged nominating request {no credentials, right USERNAME + wrong-key HMAC, anchor bytes with MESSAGE-INTEGRITY stripped, with one HMAC bit flipped, with only USE-CANDIDATE added} x re-use {anchor's transaction id from a fresh socket, anchor's socket with a new id, both, anchor's id from the known address}; sequences: proptest sequences of 1-10 requests / responses / history-dependent forgeries (anchor = own authenticated request sent first, the genuine peer's check, or the last authenticated request of the case; also exact retransmissions as positive control) with random field contents (also swapped username, tampered HMAC, absent FINGERPRINT, error codes). Non-trivial = at least one request lacking valid credentials or one response without outstanding transaction was delivered to the live agent; distinct by case digest (variant x scenario x field contents).".into();
     ctx.assumptions = vec![
-        "credentials are valid iff USERNAME starts with '<local ufrag>:' and MESSAGE-INTEGRITY is the RFC 5389 HMAC-SHA1 under the local password; 'local:<other>' with a correct HMAC is treated as authenticated (RFC 8445 7.3 checks only the first half), so it is not judged".into(),
+        "credentials are judged per message on its own bytes (independent reader + HMAC): valid iff USERNAME starts with '<local ufrag>:' and MESSAGE-INTEGRITY is the RFC 5389 HMAC-SHA1 under the local password over exactly these bytes - whatever was authenticated earlier from that address or under that transaction id; 'local:<other>' with a correct HMAC is treated as authenticated (RFC 8445 7.3 checks only the first half), so it is not judged".into(),
         "observation = state(), remote_candidates(), get_selected_pair(), nomination watch, selected-socket watch, sampled before and >= 150 ms after each message (and >= 40 ms after the agent's answer when one arrives)".into(),
         "answering an unauthenticated request is allowed and not checked; FINGERPRINT validity is varied but the statement attaches no consequence to it".into(),
         "a response matching an outstanding transaction id is honoured whatever its source address or integrity (the statement only requires a matching transaction)".into(),
@@ -1420,6 +1900,7 @@ pub fn run(ctx: &mut Ctx) {
         f.extend_from_slice(&fills[..off]);
         run_enumerated(ctx, &rt, "cross-requests", cross_requests(&f, round), conc, check.clone());
         run_enumerated(ctx, &rt, "cross-responses", cross_responses(&f), conc, check.clone());
+        run_enumerated(ctx, &rt, "history-requests", history_requests(&f, round), conc, check.clone());
         if ctx.is_replay() {
             break;
         }
